@@ -232,14 +232,26 @@ impl<SystemType : System> History<SystemType>
             Err(_) => return Err(HistoryError::CannotSerializeRuleHistory(rule_history_file_path)),
         };
 
+        /*  Write to a temporary neighbor and rename it into place, so that an interrupted
+            write never leaves a truncated rule-history file behind. */
+        let temp_file_path = format!("{}.tmp", rule_history_file_path);
+
         let mut file =
-        match system.create_file(&rule_history_file_path)
+        match system.create_file(&temp_file_path)
         {
             Ok(file) => file,
             Err(_error) => return Err(HistoryError::CannotWriteRuleHistoryFile(rule_history_file_path)),
         };
 
         match file.write_all(&content)
+        {
+            Ok(_) => {},
+            Err(_error) => return Err(HistoryError::CannotWriteRuleHistoryFile(rule_history_file_path)),
+        }
+
+        drop(file);
+
+        match system.rename(&temp_file_path, &rule_history_file_path)
         {
             Ok(_) => Ok(()),
             Err(_error) => Err(HistoryError::CannotWriteRuleHistoryFile(rule_history_file_path)),
